@@ -50,6 +50,12 @@ Theorem from_bytes_total :
   forall ver bs, from_bytes ver bs <> Panic /\ from_bytes ver bs <> Fuel.
 Proof. exact from_bytes_total_proof. Qed.
 
+(** At the command line: outside [Known_C15_disasm] (the file deserialises, what can still fail is the disassembler that
+    prints it, which is not modelled) `erg --mode read` ends in the error branch of [Deserializer::run]. *)
+Theorem read_total_cli :
+  forall bs, Known_C15_disasm bs = false -> exists e, read_pyc bs = Err e.
+Proof. exact read_total_cli_proof. Qed.
+
 (** The state of the design round (`_nofix` model) violates both halves; the witnesses are replayed against the
     implementation by checks/c15.py (known/C15.json). *)
 Theorem py_loads_dumps_nofix_refuted :
@@ -100,6 +106,13 @@ Example ex_code_pyc_37 :
   /\ read_pyc ex_pyc_37 = Ok (7, norm_code 7 ex_code (map (norm 7) (consts ex_code)))
   /\ py_loads 7 (skipn 16 ex_pyc_37) = POk (py_of 7 (VCode ex_code), []).
 Proof. repeat split; vm_compute; reflexivity. Qed.
+Example ex_nofix_type_error :
+  let f := [167; 13; 13; 10; 0; 0; 0; 0; 0; 0; 0; 0; 0; 0; 0; 0; 227; 0; 0; 0; 0; 0; 0; 0; 0; 0; 0; 0; 0; 0; 0; 0; 0; 0; 0; 0; 0;
+            115; 0; 0; 0; 0; 78; 41; 0] in
+  read_pyc_nofix f = Panic /\ read_pyc f = Err EType /\ Known_C15_disasm f = false.
+Proof. vm_compute. repeat split; reflexivity. Qed.
+Example ex_known_class : Known_C15_disasm ex_pyc_311 = true.
+Proof. vm_compute. reflexivity. Qed.
 Example ex_broken_files : read_pyc [1; 2; 3] = Err EBroken /\ read_const 11 [41; 5; 78] = Err EBroken
                           /\ read_const 11 [40; 255; 255; 255; 255] = Err EBroken.
 Proof. vm_compute. repeat split; reflexivity. Qed.
